@@ -36,7 +36,8 @@ EX = dict(BITS_EXTRACTS,
     inv_index=dict(kind='expr', file=AH, locate=r'static constexpr std::size_t\s+invalid_attribute_index\s*=(?=\s*~)'),
     vf_call=dict(file=SRV, scope=VF, locate=r'bool operator\(\)\( std::uint16_t, const details::attribute& attr \) const', rules=R),
     cf_call=dict(file=SRV, scope=CF, locate=r'template < typename Service >\s*bool operator\(\)\( std::uint16_t start_handle, std::uint16_t end_handle, const details::attribute& \)', rules=R),
-    cf_size=dict(file=SRV, scope=CF, locate=r'std::uint8_t size\(\) const'),
+    cf_size=dict(file=SRV, scope=CF, locate=r'std::(?:size_t|uint8_t|uint16_t) size\(\) const'),
+    cf_size_type=dict(kind='text', body='text', file=SRV, scope=CF, locate=r'std::\w+(?= size\(\) const)', no_members=True),   # the return type is part of what is verified: a narrow one cuts the size
     sbg_each=dict(file=SRV, scope=SBG, locate=r'template< typename Service >\s*void each\(\)', rules=R),
     cps_each=dict(file=SRV, scope=CPS, locate=r'template< typename Service >\s*void each\(\)', rules=R),
     rpsr=dict(file=SVC, locate=r'template < typename \.\.\. Options >\s*template < typename CCCDIndices, std::size_t ClientCharacteristicIndex, typename ServiceList, typename Server >\s*std::uint8_t\* service< Options\.\.\. >::read_primary_service_response\( std::uint8_t\* output, std::uint8_t\* end, std::size_t starting_index, bool is_128bit_filter, Server& server \)', rules=R),
@@ -84,8 +85,10 @@ __CPROVER_ensures(G_a.access_calls <= 1 && (G_a.access_calls == 1 ==> (G_a.acces
 __CPROVER_assigns(G_a)
 {{vf_call}}
 struct collect_find { uint8_t* begin_; uint8_t* end_; uint8_t* current_; };
-uint8_t G_buf[64];
-#define CF_OK(self) (__CPROVER_is_fresh(self, sizeof(struct collect_find)) && W_used <= W_room && W_room <= 64 && __CPROVER_pointer_equals((self)->begin_, &G_buf[0]) && __CPROVER_pointer_equals((self)->end_, &G_buf[0] + W_room) && __CPROVER_pointer_equals((self)->current_, &G_buf[0] + W_used))
+/* the response buffer behind the opcode: up to an MTU of 400 (bounds straddle 255 / 256: the collected size must not be cut to 8 bit) */
+#define CF_ROOM 400
+uint8_t G_buf[CF_ROOM];
+#define CF_OK(self) (__CPROVER_is_fresh(self, sizeof(struct collect_find)) && W_used <= W_room && W_room <= CF_ROOM && __CPROVER_pointer_equals((self)->begin_, &G_buf[0]) && __CPROVER_pointer_equals((self)->end_, &G_buf[0] + W_room) && __CPROVER_pointer_equals((self)->current_, &G_buf[0] + W_used))
 /* one handle pair per found service, only while 4 octets of room are left */
 bool cf_call(struct collect_find* self, uint16_t start_handle, uint16_t end_handle, const struct attribute* attr)
 __CPROVER_requires(CF_OK(self))
@@ -158,9 +161,10 @@ bool vf_call(const struct value_filter* f, uint16_t index, const struct attribut
 bool cf_call(struct collect_find* it, uint16_t s, uint16_t e, const struct attribute* attr) __CPROVER_ensures(__CPROVER_return_value == W_iter && G_sr.iter_calls == __CPROVER_old(G_sr.iter_calls) + 1 && G_sr.iter_start == s && G_sr.iter_end == e) __CPROVER_assigns(G_sr.iter_calls, G_sr.iter_start, G_sr.iter_end);
 '''
 UNITS = [
-    dict(name='find_by_type_value', extracts={k: v for k, v in EX.items() if k in BITS_EXTRACTS or k in ('inv_index', 'vf_call', 'cf_call', 'cf_size')},
+    dict(name='find_by_type_value', extracts={k: v for k, v in EX.items() if k in BITS_EXTRACTS or k in ('inv_index', 'vf_call', 'cf_call', 'cf_size', 'cf_size_type')},
          code=(CODE[:CODE.index('struct sbg {')] + HARN + r'''
-uint8_t cf_size(const struct collect_find* self) __CPROVER_requires(CF_OK(self)) __CPROVER_ensures(__CPROVER_return_value == (uint8_t)W_used) __CPROVER_assigns()
+/* the number of octets collected (C02: every matching group that fits is returned - also when they are more than 255 octets) */
+{{cf_size_type}} cf_size(const struct collect_find* self) __CPROVER_requires(CF_OK(self)) __CPROVER_ensures(__CPROVER_return_value == W_used) __CPROVER_assigns()
 {{cf_size}}
 void h_vf_call(void) { SETUP; struct value_filter* f; struct attribute* a; vf_call(f, nondet_u16(), a); BT_CANARY(); }
 void h_cf_call(void) { SETUP; struct collect_find* c; struct attribute a; cf_call(c, nondet_u16(), nondet_u16(), &a); BT_CANARY(); }
